@@ -186,7 +186,9 @@ def run_impl(cases, timeout=3600, pvh=None, env=None):
         done = set(res)
         rest = [c for c in cases if c["id"] not in done]
         if len(rest) == len(cases) and len(cases) == 1:
-            res[cases[0]["id"]] = {"class": "process-died", "msg": (p.stderr or "")[-400:]}
+            err = p.stderr or ""
+            k = err.find("WARNING: DATA RACE")
+            res[cases[0]["id"]] = {"class": "process-died", "msg": err[k:k + 1800] if k >= 0 else err[-400:]}
             return res
         if rest:
             first, others = rest[0], rest[1:]
